@@ -68,7 +68,7 @@ def directed(ctx):
 def directed_border():
     # known finding: integral refinement near the border of a 7x4-cell map (186x118 frame, size-matched to 103x63, scale 0.5, stride 8)
     yield {"i": -3, "model": "single", "H": 186, "W": 118, "max_hw": [103, 63], "max_stride": 8, "batch": 3, "refinement": "integral", "n_frames": 4, "seed": 906196899,
-           "n_nodes": 4, "two_videos": False, "scale": 0.5, "stride": 8, "n_animals": 1, "missing_p": 0.3}
+           "n_nodes": 4, "two_videos": False, "scale": 0.5, "stride": 8, "n_animals": 1, "missing_p": 0.3, "fixed_margin": True}
 
 
 def cases(ctx):
@@ -89,7 +89,11 @@ def build_scene(case, name):
     poses = {}
     for v, (H, W, n) in enumerate(vids):
         for f in range(n):
-            P = e2e.make_poses(r, H, W, case["n_nodes"], case["n_animals"], missing_p=case["missing_p"], margin=case.get("margin", 20.0))
+            # near-border option: keypoints may come close to the border but stay within half a cell of the confidence-map grid (the grid's last row /
+            # column sits up to a cell inside the frame; a keypoint beyond it by more than half a cell cannot be located to half a cell by any decoder)
+            eff_ = e2e.eff_scale_for(H, W, tuple(case["max_hw"]) if isinstance(case["max_hw"], (list, tuple)) else (case["H"], case["W"]))
+            cell_ = max(case["stride"] / case["scale"], 0) / eff_ if case["model"] == "single" else max(case["c_stride"] / case["c_scale"], case["i_stride"] / case["i_scale"]) / eff_
+            P = e2e.make_poses(r, H, W, case["n_nodes"], case["n_animals"], missing_p=case["missing_p"], margin=case.get("margin", 20.0) if case.get("fixed_margin") else max(case.get("margin", 20.0), 1.1 * cell_ + 1.0))
             if case["model"] == "topdown" and len(P) > 1:
                 # well-separated premise at the centroid stage: the ideal centroid bumps (sigma 1.5 cells) of two animals must stay two peaks,
                 # i.e. the centroids are >= 4.5 sigma apart on the centroid grid; animals that are closer are left out of the frame
